@@ -20,6 +20,12 @@ Enumerates (exhaustively, smallest first)
     every flow header - and every 1.0 flow of every family / shipped file as LOADED by the runtime
     (`RuntimeV1_0._load_flow_config`, a whole `RuntimeV1_0(config).flow_configs`, the flow a `start_flow` event
     defines; vf/props/c12_v1load.py): offsets inside the loaded flow, only steps left in it,
+  * 2.x blocks that hold statements without effect (comment lines, `pass`): every block of the control grammar with
+    such a leaf up to a node bound - bodies of nothing else and nops among statements (vf/props/c12_gen2.py),
+  * Colang 1.0 COMBINED configurations (`config_a + config_b`, what the server builds for several config_ids) whose
+    two parts define a flow with the same id: all ordered pairs of small programs and every program with each of its
+    one-line-shorter copies; the flows of the combined configuration and the flow configs the runtime loader makes of
+    them (vf/props/c12_comb.py),
 and model-checks each compiled flow: explicit-state exploration of its control-flow graph
 (vf/props/c12_cfg.py).  The abstraction is bound to the implementation by running the
 generated 2.x programs on the real interpreter with a logging wrapper around the
@@ -46,6 +52,8 @@ from vf.props import c12_dyn as D
 from vf.props import c12_files as F
 from vf.props import c12_gen as gen
 from vf.props import c12_v1load as L
+from vf.props import c12_gen2 as gen2
+from vf.props import c12_comb as CB
 
 PROP = "C12"
 HELPER_FLOWS = {"f", "g", "h", "p"}
@@ -56,11 +64,13 @@ TIERS = {
         v2_bound=5, v2_dyn_all=5, v2_dyn_stride={}, v1_bound=6, kmax=3,
         rich_dyn=True, pairs=False, files_stride=1, depth=4, max_steps=120, budget_s=70,
         goto_len=5, whenor_body=2, paths_stride={}, edge_kmax=2, v1meta_bound=4, v1meta_full=3,
+        nop_bound=4, nop_full=3, comb_pairs=3, comb_edits=3, comb_full=2,
     ),
     "thorough": dict(
         v2_bound=7, v2_dyn_all=5, v2_dyn_stride={6: 16, 7: 256}, v1_bound=7, kmax=4,
         rich_dyn=True, pairs=True, files_stride=1, depth=5, max_steps=400, budget_s=17 * 60,
         goto_len=6, whenor_body=3, paths_stride={7: 8}, edge_kmax=3, v1meta_bound=5, v1meta_full=4,
+        nop_bound=5, nop_full=4, comb_pairs=3, comb_edits=5, comb_full=3,
     ),
 }
 CHUNK = 400
@@ -306,7 +316,7 @@ def check_v2_state(acc, st, origin, source, size, dyn=None, skip_helpers=True, f
 _LINE_NO = re.compile(r"line \d+")
 
 
-def do_v2_program(acc, source, origin, size, dyn, paths=True):
+def do_v2_program(acc, source, origin, size, dyn, paths=True, twice=False):
     acc.add("v2_programs_generated")
     try:
         flows = list(v2x.parse_program(source)["flows"])
@@ -320,7 +330,7 @@ def do_v2_program(acc, source, origin, size, dyn, paths=True):
     cfgs = check_v2_state(acc, st, origin, source, size, dyn)
     if paths:
         check_other_paths(acc, st, origin, source, size, cfgs)
-    if "while" in source or "when" in source:
+    if twice or "while" in source or "when" in source:
         # a second runtime built from the same parse result (two LLMRails objects on one RailsConfig):
         # the compiled flows of the second compilation must be closed as well
         try:
@@ -480,6 +490,174 @@ def do_v1_program(acc, source, origin, size, dynamic_body=None, full_runtime=Fal
     return True
 
 
+# --------------------------------------------------------------------------- combined 1.0 configurations
+COMB_SUFFIX = "@combined-config"
+_COMB_CACHE = {}
+
+
+def comb_configs(nmax):
+    """[(n, idx, source, RailsConfig | None)] of all programs of the 1.0 control grammar with <= nmax nodes, each loaded
+    from a folder of its own (once per worker process; the folders are removed as soon as they are loaded)"""
+    if nmax not in _COMB_CACHE:
+        sc = CB.Scratch()
+        try:
+            out = []
+            for n, i, src in gen2.comb_programs(nmax):
+                try:
+                    cfg = sc.load(src)
+                except Exception:   # refused by the loader: outside the property (counted by the task of that program)
+                    cfg = None
+                out.append((n, i, src, cfg))
+        finally:
+            sc.close()
+        _COMB_CACHE[nmax] = out
+    return _COMB_CACHE[nmax]
+
+
+def _merge_sub(acc, sub, mk_replay):
+    for k, v in sub.c.items():
+        if isinstance(v, int) and not isinstance(v, bool):
+            acc.add(k, v)
+    for k, v in sub.reject.items():
+        acc.reject.setdefault(k, v)
+    for v in sub.viol:
+        acc.violation(v["signature"] + COMB_SUFFIX, v["what"], mk_replay(v))
+
+
+def check_combined(acc, base, updated, base_src, upd_src, origin, size, full=False):
+    """`base + updated`: every flow of the combined configuration, and every flow the runtime loader makes of its flow
+    list, is closed.  A flow that is, element for element, a flow of one of the two configurations has the graph that
+    was explored there (counted); any other element list is explored as it is."""
+    acc.add("v1_combined_configs")
+    try:
+        comb = CB.combine(base, updated)
+    except Exception as ex:   # the loader refuses to combine them: outside the property
+        acc.add("v1_combined_configs_rejected_by_loader")
+        acc.reject.setdefault(f"config_a + config_b {type(ex).__name__}: {str(ex)[:70]}", [base_src, upd_src])
+        return
+    flows = list(comb.flows)
+    known = [f["elements"] for f in list(base.flows) + list(updated.flows)]
+    ids = [f.get("id") for f in flows]
+    acc.add("v1_combined_flows", len(flows))
+    acc.add("v1_combined_configs_with_several_definitions_of_one_flow_id" if len(set(ids)) < len(ids)
+            else "v1_combined_configs_with_one_definition_per_flow_id")
+    text = "# base configuration\n" + base_src + "# updated configuration\n" + upd_src
+
+    def replay_of(index, flow_id, path):
+        def mk(v):
+            return {"kind": "v1comb", "origin": origin, "base": base_src, "updated": upd_src, "source": text,
+                    "flow": flow_id, "index": index, "path": path, "detail": v["replay"].get("detail"), "size": size}
+        return mk
+
+    explored_loaded = [G.v1_runtime_elements(k) for k in known]
+    for idx, f in enumerate(flows):
+        if any(f["elements"] == k for k in known):
+            acc.add("v1_combined_flows_same_form_as_in_their_own_configuration")
+            continue
+        acc.add("v1_combined_flows_new_form_explored")
+        sub = Acc()
+        do_v1_flows(sub, [f], origin + f":flows[{idx}]", None, size)
+        _merge_sub(acc, sub, replay_of(idx, f.get("id"), None))
+        explored_loaded.append(G.v1_runtime_elements(f["elements"]))
+        if not any(x["kind"] == "v1-combined-new-form" for x in acc.samples):
+            acc.samples.append({"kind": "v1-combined-new-form", "origin": origin, "base": base_src, "updated": upd_src,
+                                "flow": f.get("id"), "elements": len(f["elements"])})
+    # ---- what the interpreter of the combined configuration walks over
+    try:
+        fcs = CB.runtime_flow_configs(comb)
+    except Exception as ex:   # the loader of the runtime refuses the flow list: outside the property
+        acc.add("v1_combined_configs_rejected_by_runtime_loader")
+        acc.reject.setdefault(f"v1 runtime loader (combined) {type(ex).__name__}: {str(ex)[:70]}", [base_src, upd_src])
+        return
+    for fid, fc in fcs.items():
+        acc.add("v1_combined_runtime_flow_configs")
+        if any(fc.elements == k for k in explored_loaded):
+            acc.add("v1_combined_runtime_flow_configs_same_form_as_explored")
+            continue
+        acc.add("v1_combined_runtime_flow_configs_new_form_explored")
+        sub = Acc()
+        check_v1_loaded(sub, fc, origin + ":runtime.flow_configs", None, size, None, "loaded", loader="combined")
+        _merge_sub(acc, sub, replay_of(None, fid, "loaded"))
+    if not any(x["kind"] == "v1-combined-config" for x in acc.samples) and len(flows) > 1 and size >= 3:
+        acc.samples.append({"kind": "v1-combined-config", "origin": origin, "base": base_src, "updated": upd_src,
+                            "flow_ids_of_combined_config": ids, "elements_per_flow": [len(f["elements"]) for f in flows],
+                            "runtime_flow_configs": {fid: len(fc.elements) for fid, fc in fcs.items()}})
+    if full:
+        try:
+            fr = CB.full_runtime(comb)
+        except Exception as ex:
+            acc.add("v1_combined_configs_rejected_by_runtime_constructor")
+            acc.reject.setdefault(f"v1 RuntimeV1_0(combined) {type(ex).__name__}: {str(ex)[:70]}", [base_src, upd_src])
+            return
+        acc.add("v1_combined_runtimes_built")
+        for fid, fc in fr.items():
+            other = fcs.get(fid)
+            if other is not None and L.strip(other.elements) == L.strip(fc.elements):
+                acc.add("v1_combined_runtime_flow_configs_same_as_host_loader")
+                continue
+            acc.add("v1_combined_runtime_flow_configs_differ_explored_separately")
+            sub = Acc()
+            check_v1_loaded(sub, fc, origin + ":RuntimeV1_0(combined)", None, size, None, "loaded", loader="combined-full")
+            _merge_sub(acc, sub, replay_of(None, fid, "loaded"))
+
+
+def check_single_config(acc, cfg, origin, source, size):
+    """the flows of one configuration as `RailsConfig.from_path` holds them"""
+    acc.add("v1_single_configs_checked")
+    do_v1_flows(acc, list(cfg.flows), origin, source, size)
+
+
+def do_comb_pairs(acc, nmax, lo, hi, full_sum):
+    cfgs = comb_configs(nmax)
+    for a in range(lo, hi):
+        na, ia, asrc, acfg = cfgs[a]
+        acc.add("v1_programs_generated")
+        if acfg is None:
+            acc.add("v1_programs_rejected_by_loader")
+            acc.reject.setdefault("v1 RailsConfig.from_path refused the program", asrc)
+            continue
+        acc.add("v1_programs_checked")
+        check_single_config(acc, acfg, f"v1comb:n={na}:#{ia}", asrc, na)
+        for nb, ib, bsrc, bcfg in cfgs:
+            if bcfg is None:
+                continue
+            acc.add("v1_combined_pairs")
+            check_combined(acc, acfg, bcfg, asrc, bsrc, f"v1comb:pair:n={na}:#{ia}+n={nb}:#{ib}", na + nb,
+                           full=na + nb <= full_sum)
+
+
+def do_comb_edits(acc, n, lo, hi):
+    blocks = gen.V1_BLOCKS(n, False)
+    sc = CB.Scratch()
+    try:
+        for i in range(lo, hi):
+            src = gen.render_v1(blocks[i])
+            acc.add("v1_programs_generated")
+            try:
+                cfg = sc.load(src)
+            except Exception as ex:
+                acc.add("v1_programs_rejected_by_loader")
+                acc.reject.setdefault(f"v1 from_path {type(ex).__name__}: {str(ex)[:70]}", src)
+                continue
+            acc.add("v1_programs_checked")
+            check_single_config(acc, cfg, f"v1comb:n={n}:#{i}", src, n)
+            for ln, esrc in gen2.line_deletions(src):
+                acc.add("v1_edited_copies_generated")
+                try:
+                    ecfg = sc.load(esrc)
+                except Exception as ex:   # the copy is not a program: outside the property
+                    acc.add("v1_edited_copies_rejected_by_loader")
+                    acc.reject.setdefault(f"v1 from_path (edited copy) {type(ex).__name__}: {str(ex)[:60]}", esrc)
+                    continue
+                acc.add("v1_edited_copies_checked")
+                check_single_config(acc, ecfg, f"v1comb:n={n}:#{i}:without-line-{ln}", esrc, n)
+                acc.add("v1_combined_edit_pairs", 2)
+                check_combined(acc, cfg, ecfg, src, esrc, f"v1comb:edit:n={n}:#{i}+without-line-{ln}", n)
+                check_combined(acc, ecfg, cfg, esrc, src, f"v1comb:edit:n={n}:#{i}:without-line-{ln}+original", n)
+    finally:
+        sc.close()
+
+
 def do_file(acc, rel):
     version, how = F.version_of(rel)
     acc.add("files_total")
@@ -579,7 +757,10 @@ def work(task):
         rs = rich(kmax)
         for i in range(lo, hi):
             sid, lines = rs[i]
-            do_v2_program(acc, gen.in_context_v2(ctx, lines), f"v2rich:{ctx}:{sid}", len(lines) + 2, dynp)
+            # statements with a return variable (`$v = match ..` / `$v = await ..`) are compiled twice in every context
+            # (expansion rules that take the variable off the parsed statement: the second compilation starts from that)
+            do_v2_program(acc, gen.in_context_v2(ctx, lines), f"v2rich:{ctx}:{sid}", len(lines) + 2, dynp,
+                          twice=" = " in sid)
     elif kind == "v2pair":
         _, kmax, lo, hi, stride, dynp = task
         rs = rich(kmax)
@@ -651,9 +832,35 @@ def work(task):
             acc.add("v2_edge_programs")
             # interpreter binding for the bare loop exits (the other accepted statements are those of the rich family)
             ok = do_v2_program(acc, gen.in_context_v2(ctx, lines), f"v2edge:{ctx}:{sid}", len(lines) + 2,
-                               dynp if meta["op"] == "loop-exit" else None)
+                               dynp if meta["op"] == "loop-exit" else None, twice=meta["form"] == "assign")
             acc.add(f"v2_edge_{'accepted' if ok else 'rejected'}__{meta['op']}")
             acc.add("v2_edge_programs_accepted_and_checked" if ok else "v2_edge_programs_rejected_by_loader")
+    elif kind == "v2nop":
+        _, n, lo, hi, dynp, nphases = task
+        structs = gen2.nop_structures(n)
+        for i in range(lo, hi):
+            bare = gen2.n_nop_only_bodies(structs[i])
+            for phase, pname in enumerate(gen2.NOP_PHASES[:nphases]):
+                acc.add("v2_nop_programs")
+                src = gen2.render_nop(structs[i], phase)
+                ok = do_v2_program(acc, src, f"v2nop:n={n}:#{i}:{pname}", n, dynp, twice=True)
+                if ok:
+                    acc.add("v2_nop_programs_accepted_and_checked")
+                    if bare:
+                        acc.add("v2_nop_programs_with_a_body_of_nothing_else")
+                        acc.add("v2_nop_bodies_of_nothing_else", bare)
+                    if bare and n >= 3 and not any(x["kind"] == "v2-nop-program" for x in acc.samples):
+                        acc.samples.append({"kind": "v2-nop-program", "origin": f"v2nop:n={n}:#{i}:{pname}",
+                                            "program": src, "bodies_without_any_effect": bare})
+                else:
+                    acc.add("v2_nop_programs_rejected_by_loader")
+    elif kind == "v1comb":
+        if task[1] == "pairs":
+            _, _, nmax, lo, hi, full_sum = task
+            do_comb_pairs(acc, nmax, lo, hi, full_sum)
+        else:
+            _, _, n, lo, hi = task
+            do_comb_edits(acc, n, lo, hi)
     elif kind == "file":
         do_file(acc, task[1])
     else:
@@ -674,6 +881,15 @@ def tasks(tier):
     # the curated programs are few: longer histories (two loop iterations)
     out = [("v2cur", {"depth": max(6, t["depth"]), "max_steps": 1500}), ("v1rich",)]
     out += [("whenfam", "1.0", 3 if tier == "quick" else 4, 3), ("whenfam", "2.x", 3 if tier == "quick" else 4, 3 if tier == "quick" else 2)]
+    for n in range(1, t["nop_bound"] + 1):
+        full = n <= t["nop_full"]   # beyond: the comment spelling only, no interpreter runs
+        for lo, hi in _chunks(len(gen2.nop_structures(n)), 6 if full else 24):
+            out.append(("v2nop", n, lo, hi, dynp if full else None, len(gen2.NOP_PHASES) if full else 1))
+    for lo, hi in _chunks(len(gen2.comb_programs(t["comb_pairs"])), 6):
+        out.append(("v1comb", "pairs", t["comb_pairs"], lo, hi, t["comb_full"]))
+    for n in range(1, t["comb_edits"] + 1):
+        for lo, hi in _chunks(len(gen.V1_BLOCKS(n, False)), 40):
+            out.append(("v1comb", "edits", n, lo, hi))
     for n in range(1, t["v1meta_bound"] + 1):
         full = n <= t["v1meta_full"]
         for lo, hi in _chunks(len(gen.v1_meta_structures(n)), 8 if full else 64):
@@ -726,7 +942,7 @@ def run(rep, tier):
         # (the small families at the front - curated, 1.0 rich, when families, edge family - stay there, so that a
         # time cap under load drops the same kind of chunk for every seed)
         nh = 0
-        while nh < len(tk) and tk[nh][0] in ("v2cur", "v1rich", "whenfam", "v1meta", "v2edge"):
+        while nh < len(tk) and tk[nh][0] in ("v2cur", "v1rich", "whenfam", "v2nop", "v1comb", "v1meta", "v2edge"):
             nh += 1
         head, tail = tk[:nh], tk[nh:]
         random.Random(rep.seed).shuffle(tail)
@@ -742,7 +958,7 @@ def run(rep, tier):
     for res in par.pmap(work, tk, chunksize=1, deadline=deadline):
         done += 1
         k = res["task"][0]
-        key = k if k not in ("v2ctl", "v1ctl", "v1goto", "v1meta") else f"{k}:n={res['task'][1]}"
+        key = k if k not in ("v2ctl", "v1ctl", "v1goto", "v1meta", "v2nop", "v1comb") else f"{k}:{'n=' if k != 'v1comb' else ''}{res['task'][1]}"
         done_by_kind[key] = done_by_kind.get(key, 0) + 1
         cpu_by_kind[key] = cpu_by_kind.get(key, 0.0) + res["cpu"]
         c = dict(res["counts"])
@@ -761,7 +977,7 @@ def run(rep, tier):
                 rep.sample(smp, limit=12)
     planned_by_kind = {}
     for x in tk:
-        key = x[0] if x[0] not in ("v2ctl", "v1ctl", "v1goto", "v1meta") else f"{x[0]}:n={x[1]}"
+        key = x[0] if x[0] not in ("v2ctl", "v1ctl", "v1goto", "v1meta", "v2nop", "v1comb") else f"{x[0]}:{'n=' if x[0] != 'v1comb' else ''}{x[1]}"
         planned_by_kind[key] = planned_by_kind.get(key, 0) + 1
     complete = done == len(tk)
     rep.set("worker_cpu_seconds_by_family", {k: round(v, 1) for k, v in sorted(cpu_by_kind.items())})
@@ -790,7 +1006,8 @@ def run(rep, tier):
     })
     rep.set("bounds", {k: t[k] for k in ("v2_bound", "v1_bound", "kmax", "v2_dyn_all", "v2_dyn_stride",
                                           "depth", "max_steps", "pairs", "goto_len", "whenor_body", "paths_stride",
-                                          "edge_kmax", "v1meta_bound", "v1meta_full")})
+                                          "edge_kmax", "v1meta_bound", "v1meta_full", "nop_bound", "nop_full", "comb_pairs", "comb_edits",
+                                          "comb_full")})
     rep.set("loader_rejections", {k: (v if len(str(v)) < 300 else str(v)[:300]) for k, v in
                                   sorted(rejects.items())[:40]})
     rep.set("violation_occurrences_by_signature", per_sig)
@@ -857,6 +1074,22 @@ def run(rep, tier):
         "an element {_type: meta, meta: {...}} is a flow-level declaration (the loader's own contract is to move it to the "
         "FlowConfig), not a step (v1:non-primitive-left:meta). It is judged on the flow as loaded, never on the parser's "
         "output, so a loader that takes nested declarations out (and keeps the offsets right) passes",
+        f"2.x statements without effect: all blocks of <= {t['nop_bound']} nodes of the 2.x control grammar with a second leaf "
+        "`nop` (a comment line - which the parser turns into an empty statement of the block - or `pass`) that contain at "
+        "least one: then / else / while / when-case / when-else bodies and flow bodies that hold nothing else (counted: "
+        "v2_nop_bodies_of_nothing_else), and nops before / between / after statements and terminators; spellings: all "
+        f"comments, all `pass`, alternating by occurrence for <= {t['nop_full']} nodes (with interpreter runs), the comment "
+        "spelling beyond; every program on the three loader paths and compiled twice",
+        f"1.0 combined configurations (`RailsConfig.__add__`, what the server builds for several config_ids): two real "
+        f"configuration folders (config.yml `models: []` + flows.co) loaded with RailsConfig.from_path and joined with `+`; "
+        f"both define the flow `t`. Pairs: all ordered pairs of programs of the 1.0 control grammar with <= {t['comb_pairs']} "
+        f"nodes; edits: every program with <= {t['comb_edits']} nodes together with every copy that lacks one line (when the "
+        "loader accepts the copy), in both orders. Oracle: every flow of (a + b).flows and every FlowConfig that "
+        "RuntimeV1_0._init_flow_configs makes of that list (run on the host runtime; a whole RuntimeV1_0(a + b) for pairs of "
+        f"together <= {t['comb_full']} nodes, which must hold the same) is closed: a flow that is element for element (source "
+        "mapping included) a flow of a or of b has the graph explored for that configuration (counted), any other element "
+        "list is explored as it is - offsets, steps, the real sliding.slide (signatures `...@combined-config`). 2.x "
+        "configurations are not combined: `+` turns their Flow objects into dicts and RuntimeV2_x refuses the result",
         "programs the loader rejects are outside the property and only counted",
     ]
     # smallest program first per signature
@@ -988,6 +1221,38 @@ def replay(rp):
                 report(probs, f["id"], f["elements"])
             else:
                 report(G.v1_check(fc.id, fc.elements, raw=True, steps=True)[0], fc.id, fc.elements, fc)
+    elif kind == "v1comb":
+        L.host()
+        print("base configuration (flows.co):\n" + rp["base"])
+        print("updated configuration (flows.co):\n" + rp["updated"])
+        sc = CB.Scratch()
+        try:
+            base, updated = sc.load(rp["base"]), sc.load(rp["updated"])
+        finally:
+            sc.close()
+        comb = CB.combine(base, updated)
+
+        def show(els):
+            for i, el in enumerate(els):
+                print(f"  {i:3d} {json.dumps({k: v for k, v in el.items() if k != '_source_mapping'})}")
+
+        print("expected: every flow of `base + updated` (and every flow the runtime loader makes of them) has all its "
+              "offsets inside the flow; observed:")
+        for idx, f in enumerate(comb.flows):
+            print(f"(base + updated).flows[{idx}], id `{f.get('id')}`, {len(f['elements'])} elements:")
+            show(f["elements"])
+            probs = G.v1_check(f.get("id"), f["elements"])[0]
+            for p in probs:
+                print("  ", p.sig + COMB_SUFFIX, "-", p.what)
+            if not probs:
+                print("   static: none; slide binding mismatches:", D.v1_bind(f.get("id"), f["elements"])[2])
+        for fid, fc in CB.runtime_flow_configs(comb).items():
+            print(f"runtime flow config `{fid}` ({len(fc.elements)} elements):")
+            probs = G.v1_check(fid, fc.elements, raw=True, steps=True)[0]
+            for p in probs:
+                print("  ", p.sig + "@loaded" + COMB_SUFFIX, "-", p.what)
+            if not probs:
+                print("   static: none; slide binding mismatches:", D.v1_bind(fid, fc.elements, flow_config=fc)[2])
     else:
         print("unknown replay kind", kind)
     return 0
